@@ -1,5 +1,5 @@
 """C07 - expert driver for every trans/storage/equil option (DESIGN.md §4 C07)."""
-from ..rules import driver, args
+from ..rules import driver, args, cond
 
 
 def run(ctx, rep):
@@ -7,3 +7,5 @@ def run(ctx, rep):
     driver.rule_expert_table(mod, rep, "C07")
     driver.rule_expert_conj_rowwise(mod, rep)
     args.rule_forwarded_trans(mod, rep)
+    cond.rule_refine_budget(mod, rep)
+    cond.rule_refine_fresh(mod, rep)
